@@ -527,6 +527,27 @@ def rule_vec_ref_iter(text, ctx):
     return re.sub(r'in &(mapped|chars) \{', f, text)
 
 
+def rule_mut_self(text, ctx):
+    """R23: `fn f(mut self, ..) { BODY }` (unsupported receiver) -> `fn f(verif_self: Self, ..) { let mut verif_me = verif_self; BODY[self := verif_me] }`"""
+    m = re.search(r'\(\s*mut self\s*,', text)
+    if not m:
+        return text
+    brace = L.fn_body_brace(text)
+    head = text[:brace].replace(m.group(0), '(verif_self: Self,', 1)
+    body = re.sub(r'\bself\b', 'verif_me', text[brace + 1:])
+    ctx.note('R23', 'mut self', 'verif_self: Self; let mut verif_me = verif_self; self := verif_me')
+    return head + '{ let mut verif_me = verif_self;' + body
+
+
+def rule_into_iter(text, ctx):
+    """R22: `for PAT in patvals {` (a by-value generic `I: IntoIterator` parameter) -> `for PAT in verif_into_iter(patvals) {`
+    (external_body wrapper, body = `patvals.into_iter()`, which is what the `for` desugaring calls)"""
+    def f(m):
+        ctx.note('R22', m.group(0), 'for %s in verif_into_iter(%s) {' % (m.group(1), m.group(2)))
+        return 'for %s in verif_into_iter(%s) {' % (m.group(1), m.group(2))
+    return re.sub(r'for (\([^)]*\)|\w+) in (patvals|patterns) \{', f, text)
+
+
 def rule_skipped_insert(text, ctx):
     """R21: `self.skipped.insert(pattern.to_vec())` -> `verif_skipped_insert(&mut self.skipped, pattern)` (external_body wrapper, body = original)"""
     def f(m):
@@ -668,6 +689,10 @@ def apply_fn(text, spec, ctx, assoc_types=None, canary=False):
         text = rule_sort_pairs(text, ctx)
     if 'R20' in spec.rules:
         text = rule_vec_ref_iter(text, ctx)
+    if 'R22' in spec.rules:
+        text = rule_into_iter(text, ctx)
+    if 'R23' in spec.rules:
+        text = rule_mut_self(text, ctx)
     text = rule_get_unchecked(text, ctx)
     text = rule_debug_assert(text, ctx)
     if 'R8c' in spec.rules:
@@ -901,7 +926,7 @@ def process_template(unit, tpl_path=None, canary=False):
         ctx.cur = (path, (owner + '::' if owner else '') + spec.name)
         ctx.items.append({'file': path, 'item': ctx.cur[1], 'sha256': hashlib.sha256(it_src.encode()).hexdigest()[:16],
                           'lines': it_src.count('\n') + 1})
-        text, un = apply_fn(it_src, spec, ctx, assoc_types, canary)
+        text, un = apply_fn(it_src, spec, ctx, assoc_types, canary if isinstance(canary, bool) else (spec.name in canary))
         fns.append(ctx.cur[1])
         for n in un:
             unannot.append('%s loop %d' % (ctx.cur[1], n))
